@@ -670,3 +670,18 @@ Proof.
   apply NoDup_names_app in Hnd. destruct Hnd as (_ & _ & Hd).
   intro Hi. apply (Hd _ Hi). apply in_map. exact Hn.
 Qed.
+
+(* ---------- every read-only observer after every history equals the plain vector's ---------- *)
+Theorem history_observers ops l : Inv l -> ops_ok (items l) ops ->
+  exists l', run l ops = Ok l' /\
+    il_iter l' = spec_run (items l) ops /\
+    il_len l' = length (spec_run (items l) ops) /\
+    forall k, il_get l' k = Ok (spec_get (spec_run (items l) ops) k) /\
+              il_index l' k = find_idx k (spec_run (items l) ops) /\
+              il_contains_key l' k = match find_idx k (spec_run (items l) ops) with Some _ => true | None => false end.
+Proof.
+  intros HI Hok. destruct (run_refines ops l HI Hok) as (l' & H1 & H2 & H3).
+  exists l'. split; [exact H1|]. split; [exact H2|]. split; [unfold il_len; rewrite H2; reflexivity|].
+  intro k. rewrite <- H2. split; [apply inv_get; exact H3|].
+  destruct H3 as [_ Hm]. unfold il_index, il_contains_key, m_get. rewrite Hm. split; reflexivity.
+Qed.
